@@ -667,37 +667,46 @@ theorem cloneAttr_good {rec : Nat → M Nat}
     | graph g => exact absurd hv (h1 g)
     | graphs gs => exact absurd hv (h2 gs)
 
-theorem copyOutput_good (o o' : Nat) {s : St} (hI : Inv w0 allow s)
-    (ho' : In w0.length s.w.length o') :
-    GoodAt w0 allow (copyOutput o o') s (fun _ _ => True) := by
-  unfold copyOutput
-  mbind (GoodAt.vmSet hI ho') with u s1 hI1 hl1 hq1
-  mbind (GoodAt.readVal hI1) with os s2 hI2 hl2 hq2
-  mbind (copyShape_good os.shape hI2) with sh s3 hI3 hl3 hsh
-  mbind (copyType_good os.type hI3) with ty s4 hI4 hl4 hty
-  mbind (GoodAt.readDict hI4) with pd s5 hI5 hl5 hq5
-  mbind (GoodAt.readDict hI5) with md s6 hI6 hl6 hq6
-  mbind (GoodAt.readVal hI6) with ns s7 hI7 hl7 hq7
-  obtain ⟨rfl, hns⟩ := hq7
-  have hok := hI7.cells o' _ ho'.1 hns
-  obtain ⟨_, _, hp, hm, hg, hpr⟩ := hok
-  have hc : CellOk w0 w0.length s7.w.length allow
-      (.val { ns with name := os.name, shape := sh, type := ty, const := os.const, doc := os.doc }) :=
-    ⟨OptIn.mono hty (by omega), OptIn.mono hsh (by omega), hp, hm, hg, hpr⟩
-  mbind (GoodAt.setNew hI7 ho'.1 hc) with u2 s8 hI8 hl8 hq8
-  mbind (GoodAt.setNew (c := .dict { data := pd.data, invalid := [] }) hI8 hp.1 (by trivial)) with u3 s9 hI9 hl9 hq9
-  exact (GoodAt.setNew (c := .dict { data := md.data, invalid := md.invalid }) hI9 hm.1 (by trivial)).mono
-    (fun _ _ _ _ _ => trivial)
+theorem cloneOutput_good (i o : Nat) {s : St} (hI : Inv w0 allow s) :
+    GoodAt w0 allow (cloneOutput i o) s (NewId w0) := by
+  unfold cloneOutput
+  mbind (GoodAt.readVal hI) with os s1 hI1 hl1 hq1
+  mbind (copyShape_good os.shape hI1) with sh s2 hI2 hl2 hsh
+  mbind (copyType_good os.type hI2) with ty s3 hI3 hl3 hty
+  mbind (copyProps_good os.props hI3) with pr s4 hI4 hl4 hpr
+  mbind (copyMeta_good os.mstore hI4) with me s5 hI5 hl5 hme
+  have hc : CellOk w0 w0.length (s5.w.length + 1) allow
+      (.val { name := os.name, doc := os.doc, index := some i, type := ty, shape := sh,
+              const := os.const, props := pr, mstore := me }) :=
+    ⟨OptIn.mono hty (by omega), OptIn.mono hsh (by omega), In.mono hpr (by omega),
+      In.mono hme (by omega), trivial, trivial⟩
+  mbind (GoodAt.allocNew hI5 hc) with o' s6 hI6 hl6 ho'
+  mbind (GoodAt.vmSet hI6 ho') with u s7 hI7 hl7 hq7
+  exact GoodAt.pure hI7 (by rw [NewId, hq7]; exact ho')
 
-theorem copyOutputs_good :
-    ∀ (os os' : List Nat) (s : St), Inv w0 allow s → (∀ v ∈ os', In w0.length s.w.length v) →
-      GoodAt w0 allow (copyOutputs os os') s (fun _ _ => True)
-  | [], _, s, hI, _ => by unfold copyOutputs; exact GoodAt.pure hI trivial
-  | _ :: _, [], s, hI, _ => by unfold copyOutputs; exact GoodAt.pure hI trivial
-  | o :: os, o' :: os', s, hI, h => by
-    unfold copyOutputs
-    mbind (copyOutput_good o o' hI (h o' List.mem_cons_self)) with u s1 hI1 hl1 hq1
-    exact copyOutputs_good os os' s1 hI1 (fun v hv => In.mono (h v (List.mem_cons_of_mem _ hv)) hl1)
+theorem cloneOutputs_good :
+    ∀ (os : List Nat) (i : Nat) (s : St), Inv w0 allow s →
+      GoodAt w0 allow (cloneOutputs i os) s (fun r s1 => ∀ v ∈ r, In w0.length s1.w.length v)
+  | [], i, s, hI => by unfold cloneOutputs; exact GoodAt.pure hI (by simp)
+  | o :: os, i, s, hI => by
+    unfold cloneOutputs
+    mbind (cloneOutput_good i o hI) with o' s1 hI1 hl1 ho'
+    mbind (cloneOutputs_good os (i + 1) s1 hI1) with rest s2 hI2 hl2 hrest
+    refine GoodAt.pure hI2 ?_
+    intro x hx
+    rcases List.mem_cons.mp hx with h | h
+    · subst h; exact In.mono ho' hl2
+    · exact hrest x h
+
+theorem setProducer_good (n v : Nat) {s : St} (hI : Inv w0 allow s)
+    (hn : In w0.length s.w.length n) (hv : w0.length ≤ v) :
+    GoodAt w0 allow (setProducer n v) s (fun _ _ => True) := by
+  unfold setProducer
+  mbind (GoodAt.readVal hI) with vs s1 hI1 hl1 hq1
+  obtain ⟨rfl, hvs⟩ := hq1
+  obtain ⟨a, b, c, d, e, _⟩ := hI1.cells v _ hv hvs
+  exact (GoodAt.setNew hI1 hv (c := .val { vs with producer := some n }) ⟨a, b, c, d, e, hn⟩).mono
+    (fun _ _ _ _ _ => trivial)
 
 theorem cloneNode_good {rec : Nat → M Nat}
     (hrec : ∀ g s, Inv w0 allow s → GoodAt w0 allow (rec g) s (NewId w0))
@@ -711,36 +720,26 @@ theorem cloneNode_good {rec : Nat → M Nat}
     (fun ka _ s3 hI3 _ => cloneAttr_good hrec ka.1 ka.2 hI3)) with attrs s3 hI3 hl3 hattrs
   mbind (copyProps_good ns.props hI3) with pr s4 hI4 hl4 hpr
   mbind (copyMeta_good ns.mstore hI4) with me s5 hI5 hl5 hme
-  have hc : CellOk w0 w0.length (s5.w.length + 1) allow
+  mbind (cloneOutputs_good ns.outputs 0 s5 hI5) with outs s6 hI6 hl6 houts
+  mbind (GoodAt.getVm hI6) with vm s7 hI7 hl7 hq7
+  obtain ⟨rfl, _⟩ := hq7
+  have hc : CellOk w0 w0.length (s7.w.length + 1) allow
       (.node { name := ns.name, doc := ns.doc, domain := ns.domain, opType := ns.opType,
-               overload := ns.overload, version := ns.version, inputs := ins, outputs := [],
-               attrs := dictOf attrs, dev := ns.dev, props := pr, mstore := me }) := by
-    refine ⟨by simp, In.mono hpr (by omega), In.mono hme (by omega), trivial, ?_, ?_⟩
+               overload := ns.overload, version := ns.version, inputs := ins, outputs := outs,
+               attrs := dictOf attrs, dev := remapDev vm ns.dev, props := pr, mstore := me }) := by
+    refine ⟨fun v hv => In.mono (houts v hv) (by omega), In.mono hpr (by omega),
+      In.mono hme (by omega), trivial, ?_, ?_⟩
     · intro ka hka
       rcases hattrs ka (mem_dictOf hka) with h | h
       · exact .inl (In.mono h (by omega))
       · exact .inr h
     · intro ha v hv
       exact In.mono (hins ha v hv) (by omega)
-  mbind (GoodAt.allocNew hI5 hc) with n' s6 hI6 hl6 hn'
-  mbind (mkOutputs_good n' hn'.1 ns.outputs.length 0 s6 hI6 hn'.2) with outs s7 hI7 hl7 houts
-  mbind (GoodAt.readNode hI7) with nn s8 hI8 hl8 hq8
-  obtain ⟨rfl, hnn⟩ := hq8
-  obtain ⟨_, hp, hm, hg, hat, hin⟩ := hI8.cells n' _ hn'.1 hnn
-  have hc2 : CellOk w0 w0.length s8.w.length allow (.node { nn with outputs := outs }) :=
-    ⟨houts, hp, hm, hg, hat, hin⟩
-  mbind (GoodAt.setNew hI8 hn'.1 hc2) with u s9 hI9 hl9 hq9
+  mbind (GoodAt.allocNew hI7 hc) with n' s8 hI8 hl8 hn'
+  mbind (forM'_good outs s8 hI8 (fun v hv s9 hI9 hl9 =>
+    setProducer_good n' v hI9 (In.mono hn' hl9) (houts v hv).1)) with u s9 hI9 hl9 hq9
   mbind (addUses_good n' hn'.1 ins 0 s9 hI9 (fun ha v hv => (hins ha v hv).1)) with u2 s10 hI10 hl10 hq10
-  mbind (copyOutputs_good ns.outputs outs s10 hI10
-    (fun v hv => In.mono (houts v hv) (by omega))) with u3 s11 hI11 hl11 hq11
-  mbind (GoodAt.getVm hI11) with vm s12 hI12 hl12 hq12
-  mbind (GoodAt.readNode hI12) with nn2 s13 hI13 hl13 hq13
-  obtain ⟨rfl, hnn2⟩ := hq13
-  obtain ⟨ho2, hp2, hm2, hg2, hat2, hin2⟩ := hI13.cells n' _ hn'.1 hnn2
-  have hc3 : CellOk w0 w0.length s13.w.length allow (.node { nn2 with dev := remapDev vm nn2.dev }) :=
-    ⟨ho2, hp2, hm2, hg2, hat2, hin2⟩
-  mbind (GoodAt.setNew hI13 hn'.1 hc3) with u4 s14 hI14 hl14 hq14
-  exact GoodAt.pure hI14 (In.mono hn' (by omega))
+  exact GoodAt.pure hI10 (In.mono hn' (by omega))
 
 end
 
@@ -858,69 +857,48 @@ theorem mkGraph_good (src : GraphS) (inputs outputs nodes inits : List Nat) {s :
     (hinits : ∀ v ∈ inits, In w0.length s.w.length v) :
     GoodAt w0 allow (mkGraph src inputs outputs nodes inits) s (NewId w0) := by
   unfold mkGraph
-  mbind (GoodAt.readDict hI) with sp s1 hI1 hl1 hq1
-  mbind (GoodAt.readDict hI1) with sm s2 hI2 hl2 hq2
-  mbind (GoodAt.allocNew hI2 (by trivial)) with pr s3 hI3 hl3 hpr
-  mbind (GoodAt.allocNew hI3 (by trivial)) with me s4 hI4 hl4 hme
+  mbind (initEntries_good inits [] s hI (by simp) hinits) with entries s0 hI0 hl0 hent
+  obtain ⟨rfl, hent⟩ := hent
+  mbind (copyProps_good src.props hI0) with pr s3 hI3 hl3 hpr
+  mbind (copyMeta_good src.mstore hI3) with me s4 hI4 hl4 hme
   have hc : CellOk w0 w0.length (s4.w.length + 1) allow
-      (.graph { name := src.name, doc := src.doc, opsets := src.opsets, props := pr, mstore := me }) :=
-    ⟨by simp, by simp, by simp, by simp, In.mono hpr (by omega), In.mono hme (by omega)⟩
+      (.graph { name := src.name, doc := src.doc, inputs := inputs, outputs := outputs,
+                inits := entries, nodes := nodes, opsets := src.opsets, props := pr, mstore := me }) :=
+    ⟨fun v hv => In.mono (hin v hv) (by omega), fun v hv => In.mono (hout v hv) (by omega),
+      fun e he => In.mono (hent e he) (by omega), fun v hv => In.mono (hnodes v hv) (by omega),
+      In.mono hpr (by omega), In.mono hme (by omega)⟩
   mbind (GoodAt.allocNew hI4 hc) with g s5 hI5 hl5 hg
   have hin5 : ∀ v ∈ inputs, In w0.length s5.w.length v := fun v hv => In.mono (hin v hv) (by omega)
   have hout5 : ∀ v ∈ outputs, In w0.length s5.w.length v := fun v hv => In.mono (hout v hv) (by omega)
   have hnodes5 : ∀ v ∈ nodes, In w0.length s5.w.length v := fun v hv => In.mono (hnodes v hv) (by omega)
-  have hinits5 : ∀ v ∈ inits, In w0.length s5.w.length v := fun v hv => In.mono (hinits v hv) (by omega)
+  have hent5 : ∀ v ∈ entries.map (fun e => e.2), In w0.length s5.w.length v := by
+    intro v hv
+    rcases List.mem_map.mp hv with ⟨e, he, rfl⟩
+    exact In.mono (hent e he) (by omega)
   -- inputs
   mbind (forM'_good inputs s5 hI5 (fun v _ s6 hI6 _ => checkInput_good g v hI6)) with u s6 hI6 hl6 hq6
   mbind (forNew_good inputs hI6 (fun v hv => In.mono (hin5 v hv) hl6)
     (fun v s7 hI7 hl7 hv => setValueOwner_good g (fun v => { v with isIn := true }) v (fun _ _ h => h) hI7 (In.mono hg (by omega)) hv.1))
     with u2 s7 hI7 hl7 hq7
-  mbind (GoodAt.readGraph hI7) with gs s8 hI8 hl8 hq8
-  obtain ⟨rfl, hgs⟩ := hq8
-  obtain ⟨_, b, c, d, e, f⟩ := hI8.cells g _ hg.1 hgs
-  mbind (GoodAt.setNew hI8 hg.1 (c := .graph { gs with inputs := inputs })
-    ⟨fun v hv => In.mono (hin5 v hv) (by omega), b, c, d, e, f⟩) with u3 s9 hI9 hl9 hq9
   -- outputs
-  mbind (forM'_good outputs s9 hI9 (fun v _ s10 hI10 _ => checkOwned_good g v hI10)) with u4 s10 hI10 hl10 hq10
+  mbind (forM'_good outputs s7 hI7 (fun v _ s10 hI10 _ => checkOwned_good g v hI10)) with u4 s10 hI10 hl10 hq10
   mbind (forNew_good outputs hI10 (fun v hv => In.mono (hout5 v hv) (by omega))
     (fun v s11 hI11 hl11 hv => setValueOwner_good g (fun v => { v with isOut := true }) v (fun _ _ h => h) hI11 (In.mono hg (by omega)) hv.1))
     with u5 s11 hI11 hl11 hq11
-  mbind (GoodAt.readGraph hI11) with gs2 s12 hI12 hl12 hq12
-  obtain ⟨rfl, hgs2⟩ := hq12
-  obtain ⟨a, _, c, d, e, f⟩ := hI12.cells g _ hg.1 hgs2
-  mbind (GoodAt.setNew hI12 hg.1 (c := .graph { gs2 with outputs := outputs })
-    ⟨a, fun v hv => In.mono (hout5 v hv) (by omega), c, d, e, f⟩) with u6 s13 hI13 hl13 hq13
   -- initializers
-  mbind (initEntries_good inits [] s13 hI13 (by simp) (fun v hv => In.mono (hinits5 v hv) (by omega)))
-    with entries s14 hI14 hl14 hent
-  obtain ⟨rfl, hent⟩ := hent
-  have hent2 : ∀ v ∈ entries.map (fun e => e.2), In w0.length s14.w.length v := by
-    intro v hv
-    rcases List.mem_map.mp hv with ⟨e, he, rfl⟩
-    exact hent e he
-  mbind (forM'_good (entries.map (fun e => e.2)) s14 hI14 (fun v _ s15 hI15 _ => checkOwned_good g v hI15))
+  mbind (forM'_good (entries.map (fun e => e.2)) s11 hI11 (fun v _ s15 hI15 _ => checkOwned_good g v hI15))
     with u7 s15 hI15 hl15 hq15
-  mbind (forNew_good (entries.map (fun e => e.2)) hI15 (fun v hv => In.mono (hent2 v hv) hl15)
+  mbind (forNew_good (entries.map (fun e => e.2)) hI15 (fun v hv => In.mono (hent5 v hv) (by omega))
     (fun v s16 hI16 hl16 hv => setValueOwner_good g (fun v => { v with isInit := true }) v (fun _ _ h => h) hI16 (In.mono hg (by omega)) hv.1))
     with u8 s16 hI16 hl16 hq16
   mbind (forM'_good entries s16 hI16 (fun e _ s17 hI17 _ => checkInitEntry_good e hI17)) with u9 s17 hI17 hl17 hq17
-  mbind (GoodAt.readGraph hI17) with gs3 s18 hI18 hl18 hq18
-  obtain ⟨rfl, hgs3⟩ := hq18
-  obtain ⟨a, b, _, d, e, f⟩ := hI18.cells g _ hg.1 hgs3
-  mbind (GoodAt.setNew hI18 hg.1 (c := .graph { gs3 with inits := entries })
-    ⟨a, b, fun x hx => In.mono (hent x hx) (by omega), d, e, f⟩) with u10 s19 hI19 hl19 hq19
   -- names, nodes
-  mbind (forM'_good inputs s19 hI19 (fun v _ s20 hI20 _ => checkNamed_good v hI20)) with u11 s20 hI20 hl20 hq20
+  mbind (forM'_good inputs s17 hI17 (fun v _ s20 hI20 _ => checkNamed_good v hI20)) with u11 s20 hI20 hl20 hq20
   mbind (forM'_good nodes s20 hI20 (fun v _ s21 hI21 _ => checkNodeFree_good g v hI21)) with u12 s21 hI21 hl21 hq21
   mbind (forNew_good nodes hI21 (fun v hv => In.mono (hnodes5 v hv) (by omega))
     (fun v s22 hI22 hl22 hv => setNodeGraph_good g v hI22 (In.mono hg (by omega)) hv.1))
     with u13 s22 hI22 hl22 hq22
-  mbind (GoodAt.readGraph hI22) with gs4 s23 hI23 hl23 hq23
-  obtain ⟨rfl, hgs4⟩ := hq23
-  obtain ⟨a, b, c, _, e, f⟩ := hI23.cells g _ hg.1 hgs4
-  mbind (GoodAt.setNew hI23 hg.1 (c := .graph { gs4 with nodes := nodes })
-    ⟨a, b, c, fun x hx => In.mono (hnodes5 x hx) (by omega), e, f⟩) with u14 s24 hI24 hl24 hq24
-  exact GoodAt.pure hI24 (In.mono hg (by omega))
+  exact GoodAt.pure hI22 (In.mono hg (by omega))
 
 theorem cloneGraphStep_good {rec : Nat → M Nat}
     (hrec : ∀ g s, Inv w0 allow s → GoodAt w0 allow (rec g) s (NewId w0))
